@@ -484,7 +484,9 @@ def minmax_arguments():
             ("max(x, 'a')", lambda: mmax(x, 'a')),
             ('max(x, None)', lambda: mmax(x, None)),
             ('min(2x+1, w, 0.0)', lambda: mmin(aff(), w, 0.0)),
-            ('max([x, w])', lambda: mmax([x, w]))]
+            ('max([x, w])', lambda: mmax([x, w])),
+            ('abs(max(x,y))', lambda: abs(cvx())),
+            ('abs(min(x,y))', lambda: abs(ccv()))]
     for nm, mk in bad:
         count['minmax'] = count.get('minmax', 0) + 1
         try:
@@ -518,6 +520,17 @@ def minmax_arguments():
                     f.value()), 'expected': want})
         except Exception as e:
             fail('minmax-accepts', {'expression': nm, 'refused': repr(e)})
+    count['minmax'] = count.get('minmax', 0) + 1
+    try:
+        f = abs(aff())
+        want = [abs(2 * a + 1) for a in list(x.value)]
+        if (f._isconvex(), f._isconcave()) != (True, False) or any(
+                abs(u - v_) > 1e-12 for u, v_ in zip(list(f.value()), want)):
+            fail('minmax-accepts', {'expression': 'abs(2x+1)', 'value': list(
+                f.value()), 'expected': want})
+    except Exception as e:
+        fail('minmax-accepts', {'expression': 'abs(2x+1)', 'refused':
+                                repr(e)})
     for nm, mk, cv, ref in good:
         count['minmax'] = count.get('minmax', 0) + 1
         try:
